@@ -34,6 +34,13 @@ def gen_cases(ctx):
             if b == "U": d["u"] = rng.choice(us)
             mk(3, [{"g": "op", "kind": "H", "params": [], "ts": [0], "cs": []}, d, {"g": "op", "kind": "X", "params": [], "ts": [1], "cs": [0]}, dict(d)])
     mk(1, []); mk(4, [])
+    # a control qubit listed twice (the simulator treats it as the same control): the operands of a gate call must stay distinct
+    for kind in ("H", "X", "RZ", "P", "SWAP"):
+        g = rand_gate(rng, 5, [kind])
+        rest = [q for q in range(5) if q not in g["ts"]]
+        c = rng.choice(rest); d = rng.choice([q for q in rest if q != c])
+        for cs in ([c, c], [c, d, c], [d, c, c, d]):
+            mk(5, [dict(g, g="op", cs=cs)])
     # random circuits
     for _ in range(60 if not ctx.thorough() else 400):
         n = rng.randrange(1, 7)
